@@ -32,7 +32,11 @@ Qed.
 
 Lemma member_ok_wf jor objs ik field inl m :
   member_ok objs ik field inl m = wf_member (mkEnv objs [] jor) ik field inl m.
-Proof. unfold member_ok, wf_member. rewrite (member_props_wf jor). reflexivity. Qed.
+Proof.
+  unfold member_ok, wf_member. rewrite (member_props_wf jor). f_equal.
+  destruct m; try reflexivity. cbn [member_pending member_pending_in].
+  destruct (String.eqb ns "") eqn:E; [reflexivity|]. rewrite resolve_foreign by exact E. reflexivity.
+Qed.
 
 Lemma link_ok_wf jor : forall s objs, link_ok jor objs s = wf_in (mkEnv objs [] jor) s.
 Proof.
